@@ -34,7 +34,13 @@ pub fn decode_random(src: &mut Source) -> Box<dyn Case> {
     let mut pairs = Vec::new();
     while pairs.len() < 6 && (pairs.is_empty() || src.chance(3, 4)) {
         let k = *src.pick(&[2usize, 3, 4, 6, 10, 30]);
-        let a = gen_seq(src, k);
+        let a = if !pairs.is_empty() && src.chance(1, 3) {
+            // same length as the previous first argument, other content
+            let n = pairs.last().map(|p: &(Vec<char>, Vec<char>)| p.0.len()).unwrap_or(0);
+            (0..n).map(|_| sym(src.below(k))).collect()
+        } else {
+            gen_seq(src, k)
+        };
         let b = if src.chance(1, 3) {
             let mut v = a.clone();
             if !v.is_empty() {
@@ -125,8 +131,29 @@ impl Case for C17Case {
             shared.similarity(&['z', 'z', 'a', 'c', 'm', 'b', '1', 'é'], &['c', 'a']);
         }
         let mut prev = 0usize;
+        // two caller-side buffers overwritten in place between calls: the LAST call of one pair and
+        // the FIRST call of the next pass the same addresses (and often the same lengths) with
+        // different content - what a caller that recycles its word buffers does
+        let mut s1: Vec<char> = Vec::with_capacity(128);
+        let mut s2: Vec<char> = Vec::with_capacity(128);
+        if self.warmup {
+            if let Some((a, b)) = self.pairs.first() {
+                // same lengths as the pair under test, rotated symbols
+                s1.extend(a.iter().map(|&c| if c == 'm' { 'a' } else { 'm' }));
+                s2.extend(b.iter().map(|&c| if c == 'z' { 'c' } else { 'z' }));
+                shared.similarity(&s1, &s2);
+            }
+        }
         for (k, (a, b)) in self.pairs.iter().enumerate() {
             let exp = reference(a, b);
+            s1.clear();
+            s1.extend_from_slice(a);
+            s2.clear();
+            s2.extend_from_slice(b);
+            let gs = shared.similarity(&s1, &s2);
+            if gs != exp {
+                return ctx.fail("history-independence", "", format!("a={:?} b={:?} similarity={} expected {} (arguments passed in buffers that were overwritten in place since the previous call)", a.iter().collect::<String>(), b.iter().collect::<String>(), gs, exp));
+            }
             let info = |x: String| format!("a={:?} b={:?} {}", a.iter().collect::<String>(), b.iter().collect::<String>(), x);
             let got = shared.similarity(a, b);
             if got != exp {
@@ -145,11 +172,11 @@ impl Case for C17Case {
                 return ctx.fail("history-independence", "", info(format!("long-lived instance {} fresh instance {}", got, gf)));
             }
             // duplication and permutation of either argument
-            let s1 = self.perm[k % self.perm.len()];
-            let mut a2 = permute(a, s1);
+            let ps = self.perm[k % self.perm.len()];
+            let mut a2 = permute(a, ps);
             a2.extend(a.iter().take(3));
             let mut b2 = b.clone();
-            b2.extend(permute(b, s1 ^ 0x5555).iter());
+            b2.extend(permute(b, ps ^ 0x5555).iter());
             let gm = shared.similarity(&a2, &b2);
             if gm != exp {
                 return ctx.fail("repetition-order-invariance", "", info(format!("after permuting/duplicating ({:?}, {:?}) similarity={} expected {}", a2.iter().collect::<String>(), b2.iter().collect::<String>(), gm, exp)));
@@ -167,6 +194,10 @@ impl Case for C17Case {
                 ctx.label("partial-overlap");
             }
             prev = n;
+            // leave the recycled buffers as the most recent arguments
+            if shared.similarity(&s1, &s2) != exp {
+                return ctx.fail("history-independence", "", info("repeated call through the recycled buffers differs".into()));
+            }
         }
         Ok(())
     }
